@@ -590,7 +590,7 @@ fn generate_inner(prop: &str, rng: &mut Rng, tier: Tier, run: u64) -> (Case, Out
     }
     // C05: adversarial peer traffic at PRNG points of an otherwise regular session
     // (C15 / C19 speak about every event list, those of the error paths included)
-    let adversary = (prop == "C05" && run % 3 != 0) || ((prop == "C19" || prop == "C15") && run % 4 == 1);
+    let adversary = (prop == "C05" && run % 3 != 0) || ((prop == "C19" || prop == "C15" || prop == "C14") && run % 4 == 1);
     for _ in 0..len {
         let mut op = solo::gen_op(&s, rng, &prof);
         if adversary && s.w.m.st != St::Disc && !s.w.want_close && rng.chance(1, 6) {
